@@ -53,7 +53,7 @@ class ExtendedUserHeader:
         out["Section Version"] = self.versionID
         out["Sub-section type"] = self.subType
         out["Created by"] = getDisplayCompID(self.componentID, self.creatorID)
-        out["Reporting Machine Type"] = self.machineType
+        out["Reporting Machine Type"] = self.machineType.strip("\u0000")
         out["Reporting Serial Number"] = self.serialNumber.strip("\u0000")
         out["FW Released Ver"] = self.serverFWVersion.strip("\u0000")
         out["FW SubSys Version"] = self.subsystemFWVersion.strip("\u0000")
